@@ -238,6 +238,9 @@ type c13Case struct {
 	MetaErr   bool      `json:"meta_err,omitempty"`
 	MetaQ     string    `json:"meta_q,omitempty"`
 	MetaB     string    `json:"meta_b,omitempty"`
+	Huge      []byte    `json:"-"` // kind ev-big: the byte string (not written out)
+	HugeLen   int       `json:"huge_len,omitempty"`
+	HugeDesc  string    `json:"huge_desc,omitempty"`
 	Oracle    []c13Fail `json:"oracle"`
 	Feat      []string  `json:"feat"`
 }
@@ -433,12 +436,27 @@ func (u *c13Subject) deliver(c *c13Case, data []byte, pieces []int) (c13Obs, err
 	if err := u.reset(c); err != nil {
 		return o, err
 	}
-	h := &connEventHandler{readBuffer: make([]byte, 64*1024)}
+	h := &connEventHandler{readBuffer: make([]byte, venvInt("VERIF_INIT_LEN", 64*1024))}
 	pos := 0
+	offsetsBroken := func(when string) bool {
+		if h.readStartOff < 0 || h.readStartOff > h.readEndOff || h.readEndOff > len(h.readBuffer) {
+			o.PanicSig = "C13: read offsets outside the buffer " + when
+			o.PanicMsg = fmt.Sprintf("readStartOff=%d readEndOff=%d len(readBuffer)=%d: the next read of the event loop indexes the buffer out of range",
+				h.readStartOff, h.readEndOff, len(h.readBuffer))
+			o.Calls = append(o.Calls, [2]int{0, 19})
+			o.Leftover = -2
+			return true
+		}
+		return false
+	}
 	for _, n := range pieces {
 		// what onReadReady does with a kernel that returns n bytes (in several reads when the buffer is full)
 		for n > 0 {
 			h.maybeExpandReadBuffer()
+			if offsetsBroken("after maybeExpandReadBuffer") {
+				u.observe(&o)
+				return o, nil
+			}
 			k := copy(h.readBuffer[h.readEndOff:], data[pos:pos+n])
 			h.readEndOff += k
 			pos += k
@@ -456,6 +474,9 @@ func (u *c13Subject) deliver(c *c13Case, data []byte, pieces []int) (c13Obs, err
 			break
 		}
 		h.commitRead(consumed)
+		if offsetsBroken("after commitRead") {
+			break
+		}
 		o.Leftover = h.readEndOff - h.readStartOff
 	}
 	u.observe(&o)
@@ -907,6 +928,51 @@ func (g *c13Gen) longCase(id int) *c13Case {
 	return c
 }
 
+// One fallback-data event whose payload is larger than the read buffer's shrink limit, followed by ordinary events:
+// the buffer has to grow past the limit, the big event is consumed while the head of the next one is already
+// there (unread tail above the midpoint of the buffer), more bytes arrive, and the buffer shrinks once it is empty.
+// Too large for the vm_compute comparison: oracle only (kind "ev-big").
+func (g *c13Gen) hugeCase(id int) *c13Case {
+	r := g.r
+	c := &c13Case{ID: id, Kind: "ev-big", Class: "huge", Listener: true, Epoch: r.u64(),
+		LState: int(hotRestartState), SState: int(hotRestartState)}
+	limit := venvInt("VERIF_SHRINK_LIMIT", 4<<20)
+	var data []byte
+	for i, k := 0, r.intn(3); i < k; i++ {
+		data = append(data, g.event(uint8(r.pick([]int{int(typePolling), int(typeFallbackData), int(typeStreamClose)})), c.Epoch)...)
+	}
+	pl := limit + r.pick([]int{1, 1000, limit / 5, limit / 2})
+	big := c13Header(uint32(headerSize+8+pl), magicNumber, g.version(), uint8(typeFallbackData))
+	f := make([]byte, 8)
+	binary.BigEndian.PutUint32(f[0:4], uint32(1+r.intn(6)))
+	big = append(append(big, f...), g.bytes(pl)...)
+	data = append(data, big...)
+	endBig := len(data)
+	for len(data) < endBig+3000+r.intn(20000) {
+		data = append(data, g.event(uint8(r.pick([]int{int(typePolling), int(typeFallbackData), int(typeFallbackData), int(typeStreamClose), int(typeHotRestartAck)})), c.Epoch)...)
+	}
+	n := len(data)
+	c.Huge = data // not written out (8 MB of hex); the description below + VERIF_SEED regenerate it
+	c.HugeLen = n
+	c.HugeDesc = fmt.Sprintf("prefix %s | fallback-data event: header+fixed fields %s, %d payload bytes from the PRNG (checksum %d) | %d bytes of ordinary events starting %s",
+		hex.EncodeToString(data[:endBig-len(big)]), hex.EncodeToString(big[:16]), pl, c13Ck(big[16:]), n-endBig, hex.EncodeToString(data[endBig:endBig+32]))
+	c.Cuts = [][]int{{n},
+		{endBig - 10, 1010, n - endBig - 1000},
+		{endBig + 5, 7, n - endBig - 12},
+		{endBig - 1, 1, 1, n - endBig - 1}}
+	var pieces []int
+	for rem := n; rem > 0; {
+		k := 1 + r.intn(limit/2)
+		if k > rem {
+			k = rem
+		}
+		pieces = append(pieces, k)
+		rem -= k
+	}
+	c.Cuts = append(c.Cuts, pieces)
+	return c
+}
+
 // ---------------------------------------------------------------------------------------------
 // the property oracle (independent of the Coq model)
 // ---------------------------------------------------------------------------------------------
@@ -940,9 +1006,13 @@ func c13Oracle(c *c13Case) {
 		o := &c.Obs[i]
 		if o.PanicSig != "" && !seen[o.PanicSig] {
 			seen[o.PanicSig] = true
-			c.Oracle = append(c.Oracle, c13Fail{o.PanicSig, "panic on control-connection input: " + o.PanicMsg})
+			what := "panic on control-connection input: "
+			if strings.HasPrefix(o.PanicSig, "C13: read offsets") {
+				what = fmt.Sprintf("delivery %d (pieces %v): after the session consumed part of the buffer ", i, c.Cuts[i])
+			}
+			c.Oracle = append(c.Oracle, c13Fail{o.PanicSig, what + o.PanicMsg})
 		}
-		if o.Leftover < 0 {
+		if o.Leftover == -1 {
 			c.Oracle = append(c.Oracle, c13Fail{"C13: consumed outside the buffer", fmt.Sprintf("delivery %d: handleEvents returned consumed outside [0, len(buf)]: %v", i, o.Calls)})
 		}
 	}
@@ -1279,12 +1349,16 @@ func TestVerif_C13(t *testing.T) {
 	nHs := n / 6
 	nMeta := n / 6
 	nLong := n/250 + 1
-	for i := 0; i < n+nLong; i++ {
+	nHuge := n/1500 + 1
+	for i := 0; i < n+nLong+nHuge; i++ {
 		var c *c13Case
-		if i < n {
+		switch {
+		case i < n:
 			c = g.evCase(i)
-		} else {
+		case i < n+nLong:
 			c = g.longCase(3*n + i)
+		default:
+			c = g.hugeCase(3*n + i)
 		}
 		if subjSrv.s.bufferManager.remainSize() < initialFree/2 {
 			newPair()
@@ -1294,6 +1368,9 @@ func TestVerif_C13(t *testing.T) {
 			u = subjCli
 		}
 		data, _ := hex.DecodeString(c.Bytes)
+		if c.Kind == "ev-big" {
+			data = c.Huge
+		}
 		for _, pieces := range c.Cuts {
 			o, err := u.deliver(c, data, pieces)
 			if err != nil {
